@@ -255,6 +255,17 @@ def f_nest():
     # assignments at module top level and under plain control structures (no body)
     yield D([[If(A4, A4, has_else=True)] + A4])
     yield D([[Fsm((A4, 1, "in"), (A4, 0, "1"))]])
+    # If / Elif / (Elif) / Else chains with all four domains in every branch, at module level, inside a body, with calls
+    yield D([[If(A4, A4, A4, has_else=True)]])
+    yield D([[If(A4, A4)]])
+    yield D([[m0, T("T0", [If(A4, A4, A4, has_else=True)])]])
+    yield D([[m0, T("T0", A4[:1] + [If(A4[2:3], A4[2:3] + [call("M0")], A4[2:3], A4[2:3], has_else=True)])]])
+    yield D([[m0, T("T0", [If([call("M0")], A4[2:3] + [call("M0")], [call("M0")] + A4[2:3], has_else=True)])]])
+    yield D([[m0, M("N0", [If(A4, A4 + [call("M0")], has_else=False)]), T("T0", [call("N0", en="in")])]])
+    # an FSM nested in a state of another FSM, followed by further states of the outer one
+    inner = Fsm((A4[2:3], 1, "in"), (A4[2:3] + A4[:1], 0, "in"))
+    yield D([[Fsm(([inner] + A4[2:3], 1, "in"), (A4, 2, "in"), (A4[2:3], 0, "1"))]])
+    yield D([[m0, T("T0", [Fsm(([inner], 1, "in"), (A4[2:3] + [call("M0")], 0, "in"))])]])
     # nested transaction in the Else of its parent's call
     yield D([[m0, T("T0", [If([call("M0")], [T("N0", [call("M0")] + A4)], has_else=True)])]])
 
@@ -282,6 +293,23 @@ def f_prov():
                    [call("P1", en="in", arg="in")]):
             for b1 in ([call("M0", arg="in")], [call("P0", arg="in")], [call("P1", arg="in")]):
                 yield D([[m0, ["alias", "P0", "M0"], ["alias", "P1", "P0"], T("T0", b0), T("T1", b1)]])
+
+
+def f_xrel():
+    """explicit relations between bodies that live in different TModules, defined under look-alike control structures
+    (same structure position, different alternatives) so that only the module identity separates their control paths"""
+    a1 = [asg("comb")]
+    for r in RELS[1:]:
+        for on in ("t", "m"):
+            x, y = ("T0", "T1") if on == "t" else ("M0", "M1")
+            rel = [[r[0], x, y, r[1]]]
+            t0, t1 = T("T0", [call("M0")]), T("T1", [call("M1")])
+            yield D([[M("M0"), M("M1")], [If([t0], a1, has_else=True)], [If(a1, [t1], has_else=True)]], rel)
+            yield D([[M("M0"), M("M1")], [Sw(1, [(0, [t0]), (1, a1)])], [Sw(1, [(0, a1), (1, [t1])])]], rel)
+            yield D([[M("M0"), M("M1"), If([t0], a1, has_else=True)], [If(a1, [t1], has_else=True)]], rel)
+            yield D([[M("M0"), M("M1")], [T("T0", [If([call("M0")], a1, has_else=True)])],
+                     [T("T1", [If(a1, [call("M1")], has_else=True)])]], rel)
+            yield D([[M("M0"), M("M1")], [t0], [t1]], rel)
 
 
 def f_consten():
@@ -487,6 +515,7 @@ FAMILIES = {
     "xmod": f_xmod,
     "provrel": f_provrel,
     "consten": f_consten,
+    "xrel": f_xrel,
     "flat": f_flat, "chain": f_chain, "ctrl": f_ctrl, "rel": f_rel, "nest": f_nest, "val": f_val, "prov": f_prov,
     "bad": f_bad, "fwd": f_fwd,
 }
